@@ -2,235 +2,261 @@
    Theorems only (proofs in AF.Lemmas.DecodeTotalL / StrA).  All statements are about the
    validated model `decode G bs raw true` (Codec.decode in silent mode) on ARBITRARY text `raw`,
    for every group table G and expected BeginString bs; witnesses use the table and BeginString
-   regenerated from /repo (TBL, BS) and are replayable byte strings.
-   The property as written is false in four independent ways (D7, D8); each part is stated in
-   full, the true part is proved as `_partial` / exact characterisation, and the false part is
-   refuted by a concrete witness. *)
+   regenerated from /repo (TBL, BS) and are replayable byte strings (| = SOH in the comments).
+   After the round-9 and round-10 repairs the decoder part of the property holds at full
+   strength: decode never raises, 0 <= consumed <= len, what is consumed is exactly the junk
+   before the marker plus the frame candidate, the reader loop always terminates, and a message is
+   returned only if its CheckSum field is the last field, spelled as three digits, and equal to the
+   sum of all bytes before it.  What is still false: BodyLength is not compared with the body
+   (pinned by a test of the repository), so a NUL inserted in a frame is not noticed; a marker
+   inside a field value destroys the frame (D5); a candidate with an oversize BodyLength holds
+   back what follows it. *)
 From Coq Require Import ZArith NArith List Bool.
 From AF Require Import Base.Sx Py.Str Fix.Codec Fix.Framing Lemmas.StrA Lemmas.DecodeTotalL.
 Import ListNotations.
 Open Scope N_scope.
 
-(* ---------------------------------------------------------------- (a) exceptions *)
+(* ---------------------------------------------------------------- (a) totality *)
 
-(* the only exceptions silent decode can raise: ValueError (int() of BodyLength or of a
-   CheckSum value), FIXMessageError (a tag int() rejects), AttributeError (a tag already stored at
-   the root arrives after all open groups were closed).  In particular never AssertionError,
-   DuplicatedTagError, RepeatingTagError, TagNotFoundError, EncodingError. *)
-Theorem C10_exception_kinds : forall G bs raw e,
-  decode G bs raw true = Exc e -> e = EValue \/ e = EFIXMessage \/ e = EAttribute.
-Proof. exact decode_exc_kinds. Qed.
-Print Assumptions C10_exception_kinds.
+(* full strength: silent decode returns a triple for every input (no exception of any kind) *)
+Theorem C10_no_raise : forall G bs raw, exists m n r, decode G bs raw true = Ok (m, n, r).
+Proof. exact decode_total. Qed.
+Print Assumptions C10_no_raise.
 
-(* "never raises" is false (D7): one witness per site *)
-Theorem C10_no_raise_refuted :
-  dec w_blen = Exc EValue /\ dec w_cks = Exc EValue /\ dec w_tag = Exc EFIXMessage /\ dec w_dup = Exc EAttribute.
-Proof. exact raise_witnesses. Qed.
-Print Assumptions C10_no_raise_refuted.
-
-(* it holds under four computable conditions on the field list of the frame text ... *)
-Theorem C10_no_raise_partial : forall G bs raw,
-  tags_int (frame_fields raw) = true -> blen_int (frame_fields raw) = true ->
-  cks_int (frame_fields raw) = true -> no_dup_after_group G (frame_fields raw) = true ->
-  exists m n r, decode G bs raw true = Ok (m, n, r).
-Proof. exact decode_no_raise. Qed.
-Print Assumptions C10_no_raise_partial.
-
-(* ... each of which is necessary (every witness above violates exactly one of them) ... *)
-Theorem C10_no_raise_hypotheses_tight :
-  (tags_int (frame_fields w_blen), blen_int (frame_fields w_blen), cks_int (frame_fields w_blen),
-   no_dup_after_group TBL (frame_fields w_blen)) = (true, false, true, true)
-  /\ (tags_int (frame_fields w_cks), blen_int (frame_fields w_cks), cks_int (frame_fields w_cks),
-      no_dup_after_group TBL (frame_fields w_cks)) = (true, true, false, true)
-  /\ (tags_int (frame_fields w_tag), blen_int (frame_fields w_tag), cks_int (frame_fields w_tag),
-      no_dup_after_group TBL (frame_fields w_tag)) = (false, true, true, true)
-  /\ (tags_int (frame_fields w_dup), blen_int (frame_fields w_dup), cks_int (frame_fields w_dup),
-      no_dup_after_group TBL (frame_fields w_dup)) = (true, true, true, false).
-Proof. exact raise_witnesses_hyps. Qed.
-Print Assumptions C10_no_raise_hypotheses_tight.
-
-(* ... and which a three-level nested-group frame satisfies (non-vacuity) *)
-Theorem C10_no_raise_nonvacuous :
-  tags_int (frame_fields w_nested) = true /\ blen_int (frame_fields w_nested) = true
-  /\ cks_int (frame_fields w_nested) = true /\ no_dup_after_group TBL (frame_fields w_nested) = true
-  /\ dec_summary w_nested = Some (true, 130%Z, true).
-Proof. exact no_raise_nonvacuous. Qed.
-Print Assumptions C10_no_raise_nonvacuous.
+(* the former witnesses of ValueError (BodyLength, CheckSum), FIXMessageError (tag) and
+   AttributeError (root tag repeated after a closed group): rejected and consumed alone; with a
+   correct checksum the last one is returned with tag 70 marked as repeated *)
+Theorem C10_no_raise_examples :
+  dec_summary w_blen = Some (false, zlen w_blen, false)
+  /\ dec_summary w_cks = Some (false, zlen w_cks, false)
+  /\ dec_summary w_tag = Some (false, zlen w_tag, false)
+  /\ dec_summary w_dup = Some (false, zlen w_dup, false)
+  /\ exists m, dec w_dup_ok = Ok (Some m, zlen w_dup_ok, Some w_dup_ok)
+       /\ ct_get [55; 48] (msg_tags m) = Some VErr.
+Proof. exact no_raise_examples. Qed.
+Print Assumptions C10_no_raise_examples.
 
 (* ---------------------------------------------------------------- (b) consumed length *)
 
-(* the consumed length is the buffer length, the marker offset, or the marker offset plus
-   len(field 0) + len(field 1) + 9 + the BodyLength that was read *)
+(* full strength: the consumed length is always within the buffer *)
+Theorem C10_consumed_bounds : forall G bs raw m n r,
+  decode G bs raw true = Ok (m, n, r) -> (0 <= n <= zlen raw)%Z.
+Proof. exact decode_consumed_bounds. Qed.
+Print Assumptions C10_consumed_bounds.
+
+(* exactly: len minus the partial-marker tail (no marker); or, with the marker at offset i, either
+   i (decode waits: fewer than three fields and no further marker, or the declared length exceeds
+   the buffer) or i + the length of the frame candidate *)
 Theorem C10_consumed_shape : forall G bs raw m n r,
   decode G bs raw true = Ok (m, n, r) ->
-  n = zlen raw \/
+  (find_sub MARK raw = None /\ m = None /\ n = (zlen raw - Z.of_nat (marker_tail raw))%Z) \/
   exists i, find_sub MARK raw = Some i /\
-    (n = Z.of_nat i \/
-     exists f0 f1 rest bl,
-       frame_fields raw = f0 :: f1 :: rest /\ frame_blen raw = Some bl
-       /\ n = (Z.of_nat i + (zlen f0 + zlen f1 + 9 + bl))%Z
-       /\ (zlen f0 + zlen f1 + 9 + bl <= zlen raw)%Z).
+    ((m = None /\ n = Z.of_nat i /\ wait_case i raw)
+     \/ n = (Z.of_nat i + zlen (dec_encoded i raw))%Z).
 Proof. exact decode_consumed_shape. Qed.
 Print Assumptions C10_consumed_shape.
 
-(* 0 <= n when the BodyLength read is not negative; n exceeds the buffer by at most the junk
-   before the marker, hence n <= len when the frame starts the buffer *)
-Theorem C10_consumed_bounds_partial : forall G bs raw m n r,
-  decode G bs raw true = Ok (m, n, r) ->
-  ((forall bl, frame_blen raw = Some bl -> (0 <= bl)%Z) -> (0 <= n)%Z)
-  /\ (n <= zlen raw + marker_offset raw)%Z
-  /\ (marker_offset raw = 0%Z -> (n <= zlen raw)%Z).
-Proof. exact decode_consumed_bounds. Qed.
-Print Assumptions C10_consumed_bounds_partial.
+(* what is consumed beyond the junk prefix is exactly the candidate: nothing that follows it in
+   the buffer is lost - a rejected frame is dropped alone (D8-bad-frame-drops-buffer repaired) *)
+Theorem C10_consumes_candidate : forall G bs raw m n r i,
+  decode G bs raw true = Ok (m, n, r) -> find_sub MARK raw = Some i ->
+  (m = None /\ n = Z.of_nat i /\ wait_case i raw)
+  \/ (n = (Z.of_nat i + zlen (dec_encoded i raw))%Z
+      /\ raw = firstn i raw ++ dec_encoded i raw ++ skipn (Z.to_nat n) raw).
+Proof. exact decode_consumes_candidate. Qed.
+Print Assumptions C10_consumes_candidate.
 
-Theorem C10_consumed_negative_refuted :
-  exists raw m n r, decode TBL BS raw true = Ok (m, n, r) /\ (n < 0)%Z.
-Proof. exact consumed_negative_refuted. Qed.
-Print Assumptions C10_consumed_negative_refuted.
+(* the former witnesses of a negative consumed length (-975) and of consumed > len (47 of 37) *)
+Theorem C10_consumed_examples :
+  dec_summary w_neg = Some (false, zlen w_neg, false)
+  /\ dec_summary w_negbad = Some (false, zlen w_negbad, false)
+  /\ dec_summary w_over = Some (false, 10%Z, false) /\ zlen w_over = 37%Z.
+Proof. exact consumed_examples. Qed.
+Print Assumptions C10_consumed_examples.
 
-Theorem C10_consumed_negative_values :
-  dec_summary w_neg = Some (true, (-975)%Z, true) /\ dec_summary w_negbad = Some (false, (-975)%Z, false).
-Proof. exact consumed_negative_values. Qed.
-Print Assumptions C10_consumed_negative_values.
+(* no marker in the buffer: everything is dropped except the longest proper marker prefix (at most
+   5 bytes) the buffer ends with *)
+Theorem C10_no_marker_keeps_tail : forall G bs raw,
+  find_sub MARK raw = None ->
+  exists t, (t <= 5)%nat /\ (t <= length raw)%nat
+    /\ decode G bs raw true = Ok (None, (zlen raw - Z.of_nat t)%Z, None)
+    /\ skipn (length raw - t) raw = firstn t MARK.
+Proof. exact decode_no_marker_tail. Qed.
+Print Assumptions C10_no_marker_keeps_tail.
 
-Theorem C10_consumed_overlong_refuted :
-  exists raw m n r, decode TBL BS raw true = Ok (m, n, r) /\ (zlen raw < n)%Z.
-Proof. exact consumed_overlong_refuted. Qed.
-Print Assumptions C10_consumed_overlong_refuted.
+Theorem C10_marker_tail_examples :
+  dec_summary [97; 98; 99; 56; 61; 70] = Some (false, 3%Z, false)
+  /\ dec_summary [56; 61; 70; 73; 88] = Some (false, 0%Z, false)
+  /\ dec_summary [97; 98; 99] = Some (false, 3%Z, false)
+  /\ length (delivered (reader_run TBL BS [] [w_good ++ [56; 61; 70]; skipn 3 w_good])) = 2%nat.
+Proof. exact marker_tail_examples. Qed.
+Print Assumptions C10_marker_tail_examples.
 
-Theorem C10_consumed_overlong_values : dec_summary w_over = Some (true, 47%Z, true) /\ zlen w_over = 37%Z.
-Proof. exact consumed_overlong_values. Qed.
-Print Assumptions C10_consumed_overlong_values.
+(* the exact zero-consumption cases: no message, and either the buffer is a proper prefix of the
+   marker (at most 5 bytes), or a candidate starts the buffer and decode waits for its completion;
+   in particular a fragment followed by another marker is consumed (D8-fragment-stalls repaired) *)
+Theorem C10_zero_consumption_cases : forall G bs raw m r,
+  decode G bs raw true = Ok (m, 0%Z, r) ->
+  m = None /\
+  ((find_sub MARK raw = None /\ (length raw <= 5)%nat /\ raw = firstn (length raw) MARK)
+   \/ (find_sub MARK raw = Some 0%nat /\ wait_case 0 raw)).
+Proof. exact decode_zero_cases. Qed.
+Print Assumptions C10_zero_consumption_cases.
 
 (* ---------------------------------------------------------------- (c) acceptance *)
 
-(* a returned message: the raw text is the slice of the input from the marker to the next marker
-   (or the end); it has at least three fields; it reads X SOH <last field> [SOH]; BeginString is
-   the expected one; BodyLength parses; and some field "10=v" has int(v) = (sum(X) + 1) mod 256 *)
+(* Every returned message (full strength): its raw text is the slice of the input that starts at
+   the marker and the consumed length is the junk before the marker plus that text; BeginString is
+   the expected one; the second field is a BodyLength that is a length and fits the buffer; the
+   CheckSum field is the LAST field and the only one with tag "10", and its value is exactly
+   "%0.3i" of the sum of ALL bytes before "10=" modulo 256; the text is those bytes, "10=ddd" and
+   at most one SOH. *)
 Theorem C10_accept_sound : forall G bs raw m n r,
   decode G bs raw true = Ok (Some m, n, r) ->
-  exists i, find_sub MARK raw = Some i /\ r = Some (dec_encoded i raw) /\
+  exists i, find_sub MARK raw = Some i /\ r = Some (dec_encoded i raw)
+    /\ n = (Z.of_nat i + zlen (dec_encoded i raw))%Z /\
     let fs := dec_fields i raw in
-    let X := join SOHs (removelast fs) in
+    let before := join SOHs (removelast fs) ++ SOHs in
+    let ddd := fmt03 (sum_codes before mod 256) in
     (3 <= length fs)%nat
-    /\ (exists tail, (tail = [] \/ tail = SOHs) /\ dec_encoded i raw = X ++ SOHs ++ last fs [] ++ tail)
-    /\ (exists t0 v1 bl, nth 0 fs [] = field t0 bs /\ nth 1 fs [] = field T9 v1 /\ py_int v1 = Some bl)
-    /\ exists v, In (field T10 v) fs /\ py_int v = Some (Z.of_N ((sum_codes X + 1) mod 256)).
+    /\ (exists t0 v1 bl, nth 0 fs [] = field t0 bs /\ nth 1 fs [] = field T9 v1 /\ py_int v1 = Some bl
+          /\ (0 <= bl)%Z /\ (zlen (nth 0 fs []) + zlen (nth 1 fs []) + 9 + bl <= zlen raw - Z.of_nat i)%Z)
+    /\ fs = removelast fs ++ [field T10 ddd]
+    /\ Forall (fun f => field_tag f <> Some T10) (removelast fs)
+    /\ exists tail, (tail = [] \/ tail = SOHs) /\ dec_encoded i raw = before ++ field T10 ddd ++ tail.
 Proof. exact decode_accept_sound. Qed.
 Print Assumptions C10_accept_sound.
 
-(* "BodyLength consistent with the bytes" is false (D8) *)
-Theorem C10_bodylength_unchecked_refuted :
-  exists raw m n, decode TBL BS raw true = Ok (Some m, n, Some raw)
-    /\ frame_blen raw = Some 2%Z /\ well_framedb raw = false /\ (n < zlen raw)%Z.
-Proof. exact bodylength_unchecked_refuted. Qed.
-Print Assumptions C10_bodylength_unchecked_refuted.
+Theorem C10_accept_nonvacuous :
+  dec_summary w_nested = Some (true, 130%Z, true) /\ dec_summary w_good = Some (true, 26%Z, true).
+Proof. exact accept_nonvacuous. Qed.
+Print Assumptions C10_accept_nonvacuous.
 
-(* "no single-byte corruption is returned as a message" is false (D8): '0' -> ' ' in a CheckSum
-   with a leading zero gives the same message *)
-Theorem C10_checksum_lenient_refuted :
-  exists raw m n, decode TBL BS raw true = Ok (Some m, n, Some raw) /\ well_framedb raw = false
-    /\ exists raw', well_framedb raw' = true /\ length raw' = length raw
-         /\ decode TBL BS raw' true = Ok (Some (mkMsg (msg_type m)
-               (ct_put T10 (VStr [48; 51; 50]) (msg_tags m))), n, Some raw').
-Proof. exact checksum_lenient_refuted. Qed.
-Print Assumptions C10_checksum_lenient_refuted.
+(* the former witnesses of the lenient CheckSum spellings ("10= 32", "10=+32") are rejected *)
+Theorem C10_checksum_strict_examples :
+  dec_summary w_lz = Some (true, 34%Z, true)
+  /\ dec_summary w_lenient = Some (false, 34%Z, false)
+  /\ dec_summary w_lenient_plus = Some (false, 34%Z, false).
+Proof. exact checksum_strict_examples. Qed.
+Print Assumptions C10_checksum_strict_examples.
 
-Theorem C10_checksum_lenient_values :
-  dec_summary w_lenient = Some (true, 34%Z, true) /\ dec_summary w_lenient_plus = Some (true, 34%Z, true)
-  /\ dec_summary w_lz = Some (true, 34%Z, true).
-Proof. exact checksum_lenient_values. Qed.
-Print Assumptions C10_checksum_lenient_values.
+(* the former witness of "a field after CheckSum is returned in the message" *)
+Theorem C10_fields_after_checksum_fixed :
+  dec_summary w_trailing = Some (false, 31%Z, false) /\ zlen w_trailing = 38%Z
+  /\ last (frame_fields w_trailing) [] = field T10 [49; 57; 48].
+Proof. exact trailing_field_fixed. Qed.
+Print Assumptions C10_fields_after_checksum_fixed.
 
-(* the CheckSum field need not be last: a field after it is outside the sum and is returned *)
-Theorem C10_fields_after_checksum_refuted :
-  exists raw m n, decode TBL BS raw true = Ok (Some m, n, Some raw)
-    /\ ct_get [49] (msg_tags m) = Some (VStr [101; 118; 105; 108])
-    /\ last (frame_fields raw) [] = field [49] [101; 118; 105; 108]
-    /\ well_framedb raw = false.
-Proof. exact trailing_field_unchecked_refuted. Qed.
-Print Assumptions C10_fields_after_checksum_refuted.
-
-(* the part of "no single-byte corruption is returned" that holds: one byte replaced inside the
-   value of a field that is neither a CheckSum field nor the last field, the field structure
-   otherwise unchanged (no SOH / marker introduced or destroyed), is never returned as a message:
-   the expected sum moves by a non-zero amount below 256 while the CheckSum field stays *)
-Theorem C10_subst_detected_partial : forall G bs raw raw' pre t a x y c post,
-  frame_fields raw = pre ++ field t (a ++ x :: c) :: post ->
-  frame_fields raw' = pre ++ field t (a ++ y :: c) :: post ->
-  post <> [] -> t <> T10 -> ~ In 61 t -> x <> y -> x < 256 -> y < 256 ->
+(* one byte of one field replaced, the list of fields otherwise unchanged (the change neither
+   creates nor destroys a SOH, a marker or the CheckSum separator): never returned as a message.
+   Covers every position - tags, "=", values, BeginString, BodyLength and the CheckSum field. *)
+Theorem C10_subst_detected : forall G bs raw raw' pre a x y c post,
+  frame_fields raw = pre ++ (a ++ x :: c) :: post ->
+  frame_fields raw' = pre ++ (a ++ y :: c) :: post ->
+  x <> y -> x < 256 -> y < 256 ->
   (exists m n r, decode G bs raw true = Ok (Some m, n, r)) ->
   forall m' n' r', decode G bs raw' true <> Ok (Some m', n', r').
 Proof. exact decode_subst_detected. Qed.
-Print Assumptions C10_subst_detected_partial.
+Print Assumptions C10_subst_detected.
 
 Theorem C10_subst_nonvacuous :
   let pre := [field T8 BS; field T9 [49; 50]; field T35 [48]] in
-  let post := [field T10 [48; 51; 50]] in
-  frame_fields w_lz = pre ++ field [53; 56] ([50; 57] ++ 57 :: []) :: post
-  /\ frame_fields w_lz_subst = pre ++ field [53; 56] ([50; 57] ++ 56 :: []) :: post
+  frame_fields w_lz = pre ++ ([53; 56; 61; 50; 57] ++ 57 :: []) :: [field T10 [48; 51; 50]]
+  /\ frame_fields w_lz_subst = pre ++ ([53; 56; 61; 50; 57] ++ 56 :: []) :: [field T10 [48; 51; 50]]
+  /\ frame_fields w_lz = (pre ++ [field [53; 56] [50; 57; 57]]) ++ ([49; 48; 61; 48; 51] ++ 50 :: []) :: []
+  /\ frame_fields w_lz_ck = (pre ++ [field [53; 56] [50; 57; 57]]) ++ ([49; 48; 61; 48; 51] ++ 51 :: []) :: []
   /\ dec_summary w_lz = Some (true, 34%Z, true)
-  /\ dec_summary w_lz_subst = Some (false, 34%Z, false).
+  /\ dec_summary w_lz_subst = Some (false, 34%Z, false)
+  /\ dec_summary w_lz_ck = Some (false, 34%Z, false).
 Proof. exact subst_example. Qed.
 Print Assumptions C10_subst_nonvacuous.
 
+(* still false: "BodyLength consistent with the bytes" (pinned by
+   tests/test_codec.py::test_decode_custom_msg_type) - BodyLength 2 for a body of 14 is returned *)
+Theorem C10_bodylength_unchecked_refuted :
+  exists raw m n, decode TBL BS raw true = Ok (Some m, n, Some raw)
+    /\ frame_blen raw = Some 2%Z /\ well_framedb raw = false.
+Proof. exact bodylength_unchecked_refuted. Qed.
+Print Assumptions C10_bodylength_unchecked_refuted.
+
+(* ... hence still false: "no single-byte corruption is returned" - a NUL inserted in a value
+   keeps the byte sum and is returned as part of the value (D8-nul-keeps-checksum) *)
+Theorem C10_nul_keeps_checksum_refuted :
+  exists a b m m' n n', w_lz = a ++ b /\ w_nul = a ++ 0 :: b
+    /\ decode TBL BS w_lz true = Ok (Some m, n, Some w_lz)
+    /\ decode TBL BS w_nul true = Ok (Some m', n', Some w_nul)
+    /\ well_framedb w_lz = true /\ well_framedb w_nul = false
+    /\ ct_get [53; 56] (msg_tags m) = Some (VStr [50; 57; 57])
+    /\ ct_get [53; 56] (msg_tags m') = Some (VStr [50; 0; 57; 57]).
+Proof. exact nul_keeps_checksum_refuted. Qed.
+Print Assumptions C10_nul_keeps_checksum_refuted.
+
+(* still false (D5): a well-formed frame whose value contains "8=FIX." is not returned *)
+Theorem C10_marker_in_field_refuted :
+  well_framedb w_d5 = true /\ dec_summary w_d5 = Some (false, 23%Z, false) /\ zlen w_d5 = 38%Z.
+Proof. exact marker_in_field_refuted. Qed.
+Print Assumptions C10_marker_in_field_refuted.
+
 (* ---------------------------------------------------------------- (d) progress *)
 
-(* the inner loop of socket_read_task ends within len(buffer) + 1 iterations provided every
-   message returned for a suffix of the buffer comes with a positive length ... *)
-Theorem C10_reader_terminates : forall G bs buf chunk,
-  suffix_progress G bs (buf ++ chunk) -> status (reader_step G bs buf chunk) <> 2.
+(* full strength: for every buffer and chunk the inner loop of socket_read_task ends within
+   len + 1 iterations, without an exception (status 1) and without exhausting the fuel (status 2) *)
+Theorem C10_reader_terminates : forall G bs buf chunk, status (reader_step G bs buf chunk) = 0.
 Proof. exact reader_step_terminates. Qed.
 Print Assumptions C10_reader_terminates.
 
-(* ... because each such iteration strictly shortens the buffer ... *)
+(* every iteration that goes on - a delivery, or a rejection with a positive consumed length -
+   strictly shortens the buffer; a delivery always has a positive consumed length *)
 Theorem C10_reader_iteration_shrinks : forall G bs buf m n r,
-  decode G bs buf true = Ok (Some m, n, r) -> (0 < n)%Z ->
-  (length (skipn (Z.to_nat n) buf) < length buf)%nat.
+  decode G bs buf true = Ok (m, n, r) -> (m <> None \/ 0 < n)%Z ->
+  (0 < n)%Z /\ (length (skipn (Z.to_nat n) buf) < length buf)%nat.
 Proof. exact reader_iteration_shrinks. Qed.
 Print Assumptions C10_reader_iteration_shrinks.
 
-(* ... which is the case when no suffix of the buffer carries a negative BodyLength *)
-Theorem C10_progress_partial : forall G bs buf,
-  (forall k bl, frame_blen (skipn k buf) = Some bl -> (0 <= bl)%Z) -> suffix_progress G bs buf.
-Proof. exact nonneg_blen_progress. Qed.
-Print Assumptions C10_progress_partial.
+(* a rejected frame does not take its successor with it and the successor does not wait for
+   another read (repair R10i): if the head of the buffer is rejected with a positive consumed
+   length and what follows it decodes to a message, that message is the first delivery of the
+   SAME reader step *)
+Theorem C10_rejected_frame_does_not_block : forall G bs buf chunk n r m n2 r2,
+  decode G bs (buf ++ chunk) true = Ok (None, n, r) -> (0 < n)%Z ->
+  decode G bs (skipn (Z.to_nat n) (buf ++ chunk)) true = Ok (Some m, n2, Some r2) ->
+  exists more, delivered (reader_step G bs buf chunk) = (m, r2) :: more
+               /\ status (reader_step G bs buf chunk) = 0.
+Proof. exact reader_bad_then_good. Qed.
+Print Assumptions C10_rejected_frame_does_not_block.
 
-(* "one malformed frame can never block the frames that follow it" is false (D7, D8) *)
-Theorem C10_stall_refuted :
-  exists first, delivered (run2 first) = [] /\ residual (run2 first) = first ++ w_good ++ w_good
-    /\ length (delivered (reader_run TBL BS [] [w_good; w_good])) = 2%nat.
-Proof. exact stall_refuted. Qed.
-Print Assumptions C10_stall_refuted.
+(* the former blocking frames (negative BodyLength with wrong / correct checksum, the raising
+   frames, the fragment, the wrong BeginString, ...) followed by two good frames: both delivered *)
+Theorem C10_no_blocking_examples :
+  Forall (fun first => residual (run2 first) = [] /\ length (delivered (run2 first)) = 2%nat
+                       /\ snd (run2 first) = [0; 0])
+         [w_negbad; w_neg; w_blen; w_cks; w_tag; w_dup; w_frag; w_badbs; w_lenient; w_trailing].
+Proof. exact no_blocking_examples. Qed.
+Print Assumptions C10_no_blocking_examples.
 
-Theorem C10_stall_negative_bodylength : run2 w_negbad = (w_negbad ++ w_good ++ w_good, [], [0; 0]).
-Proof. exact stall_negative_refuted. Qed.
-Print Assumptions C10_stall_negative_bodylength.
+Theorem C10_bad_then_good_example :
+  dec_summary (w_badbs ++ w_good) = Some (false, zlen w_badbs, false)
+  /\ dec_summary (w_frag ++ w_good) = Some (false, zlen w_frag, false)
+  /\ exists m, dec w_good = Ok (Some m, zlen w_good, Some w_good)
+       /\ delivered (reader_run TBL BS [] [w_badbs ++ w_good; w_good]) = [(m, w_good); (m, w_good)].
+Proof. exact bad_then_good_example. Qed.
+Print Assumptions C10_bad_then_good_example.
 
-Theorem C10_stall_raising_frame : run2 w_blen = (w_blen ++ w_good ++ w_good, [], [1; 1]).
-Proof. exact stall_raising_refuted. Qed.
-Print Assumptions C10_stall_raising_frame.
+(* the former witnesses of "one rejected candidate per read": a good frame behind one, or behind
+   several, rejected candidates in ONE read is delivered by that read and the buffer is empty *)
+Theorem C10_same_read_examples :
+  (let '(b, out, sts) := reader_run TBL BS [] [w_badbs ++ w_good] in (b, length out, sts)) = ([], 1%nat, [0])
+  /\ (let '(b, out, sts) := reader_run TBL BS [] [w_d5 ++ w_good] in (b, length out, sts)) = ([], 1%nat, [0])
+  /\ (let '(b, out, sts) := reader_run TBL BS [] [w_blen ++ w_negbad ++ w_frag ++ w_good ++ w_tag ++ w_good] in
+      (b, length out, sts)) = ([], 2%nat, [0]).
+Proof. exact same_read_examples. Qed.
+Print Assumptions C10_same_read_examples.
 
-Theorem C10_stall_fragment :
-  dec_summary (w_frag ++ w_good) = Some (false, 0%Z, false)
-  /\ run2 w_frag = (w_frag ++ w_good ++ w_good, [], [0; 0]).
-Proof. exact stall_fragment_refuted. Qed.
-Print Assumptions C10_stall_fragment.
-
-(* the opposite failure: a frame with a wrong BeginString makes decode report the whole buffer
-   as consumed, so a good frame received in the same read is discarded with it *)
-Theorem C10_drop_buffer_refuted :
-  dec_summary (w_badbs ++ w_good) = Some (false, zlen (w_badbs ++ w_good), false)
-  /\ reader_run TBL BS [] [w_badbs ++ w_good] = ([], [], [0])
-  /\ length (delivered (reader_run TBL BS [] [w_badbs; w_good])) = 1%nat.
-Proof. exact drop_buffer_refuted. Qed.
-Print Assumptions C10_drop_buffer_refuted.
-
-(* "repeated decoding of any buffer terminates" is false (D8): a negative BodyLength with a
-   correct checksum is handed to the session for ever *)
-Theorem C10_livelock_refuted :
-  status (reader_step TBL BS [] (w_neg ++ w_good)) = 2
-  /\ residual (reader_step TBL BS [] (w_neg ++ w_good)) = w_neg ++ w_good
-  /\ length (delivered (reader_step TBL BS [] (w_neg ++ w_good))) = S (length (w_neg ++ w_good)).
-Proof. exact spin_negative_refuted. Qed.
-Print Assumptions C10_livelock_refuted.
+(* still false (D8-oversize-bodylength-waits): a candidate whose declared BodyLength exceeds what
+   the buffer holds makes decode wait although complete frames follow it *)
+Theorem C10_oversize_bodylength_waits_refuted :
+  dec_summary (w_oversize ++ w_good) = Some (false, 0%Z, false)
+  /\ frame_blen (w_oversize ++ w_good) = Some 500%Z
+  /\ run2 w_oversize = (w_oversize ++ w_good ++ w_good, [], [0; 0]).
+Proof. exact oversize_bodylength_waits_refuted. Qed.
+Print Assumptions C10_oversize_bodylength_waits_refuted.
